@@ -691,6 +691,36 @@ def _root_read(b, op, block):
     return None
 
 
+def parse_row_instantiations_small(F, site):
+    """every instantiation of parse_row / parse_table has a column count N <= 8 (the `resize(N, "")` allocates N slots)"""
+    ns = []
+    for pred in (lambda p: p.endswith("asm::encoding::parse_table"),):
+        for b, bi, t in _all_callsites(F, pred):
+            m = re.search(r"(\d+)_usize", (t["func"].get("fn_args") or ""))
+            if not m:
+                return False
+            ns.append(int(m.group(1)))
+    inner = [t for b, bi, t in _all_callsites(F, lambda p: p.endswith("asm::encoding::parse_row"))]
+    # parse_row is only called from parse_table (with the same N)
+    callers = set(b.path.split("::{closure")[0] for b, bi, t in _all_callsites(F, lambda p: p.endswith("asm::encoding::parse_row")))
+    return len(ns) >= 4 and all(1 <= n <= 8 for n in ns) and callers == {"asm::encoding::parse_table"}
+
+
+def size_is_count_lines(F, site):
+    """the allocation size is SourceInfo::count_lines() of the SourceInfo built from the same text (= number of newlines + 1 <= len + 1)"""
+    b = site.body
+    ops = [b.expr_of_operand(o) for o in site.ops]
+    if len(ops) < 2:
+        return False
+    e = panics._unwrap_var(ops[1])
+    cl = F.bodies.get("asm::SourceInfo::count_lines")
+    if not (e[0] == "call" and (e[1] or "").endswith("asm::SourceInfo::count_lines") and cl is not None):
+        return False
+    # count_lines is Vec::len of nl_indices
+    calls = [c for _, _, c, _ in cl.calls()]
+    return len(calls) == 1 and calls[0].endswith("Vec::<T, A>::len")
+
+
 def E(tag, why, n=1, when=None, scope=None):
     return dict(tag=tag, why=why, n=n, when=when, scope=scope)
 
@@ -698,6 +728,10 @@ def E(tag, why, n=1, when=None, scope=None):
 TRUSTED = {"C02", "C16", "C29", "C26a"}   # properties whose object files come from the assembler
 
 TABLE = {
+    "asm::SymbolTable::new::{closure#0}|call|std::vec::from_elem": [
+        E("D-INV", "vec![None; count_lines()]: the size is the number of newlines of the text + 1, i.e. bounded by the length of a string that already exists", when=size_is_count_lines)],
+    "asm::encoding::parse_row|call|std::vec::Vec::resize": [
+        E("D-TYPE", "segments.resize(N, \"\"): N is the column count of a table (2 or 3 in every instantiation)", when=parse_row_instantiations_small)],
     # ------------------------------------------------------------------ assembler (trusted input: a parsed program)
     "asm::SymbolTable::new|call|<std::vec::Vec<T, A> as std::ops::IndexMut<I>>::index_mut": [
         E("D-TABLE", "lines[get_line(stmt.span.start)]: a statement starts before the end of the source it was parsed from, so its line is < count_lines() (assumption: `src` is the text the AST was parsed from - the documented contract of assemble_debug)",
